@@ -152,6 +152,7 @@ def run(ctx, rep):
     # ------------------------------------------------------------------ R07.3
     c06.check_mediation(ctx, rep, "R07.3", "R07.3")
     K.share(ctx, rep, "c06", lambda o: o.rule == "R06.3", "R07.3", floor=1)
+    K.share(ctx, rep, "c02", lambda o: o.rule in ("R02.1", "R02.2") and "through the policy" in o.key, "R07.3", floor=2)
 
     # ------------------------------------------------------------------ R07.4
     n_sinks = 0
